@@ -128,6 +128,9 @@ def gen_cases(tier: str, seed: int):
                       'revocations': sorted(round(rng.uniform(0.5, 12.0), 3) for _ in range(rng.randint(1, 3))),
                       'login_delay': rng.choice([0.0, 0.2, 1.0, 3.0]), 'latencies': [0.0, 0.05, 0.3, 1.0], 'gap': rng.choice([0.0, 0.1, 0.7]),
                       'flaky': rng.random() < 0.4, 'start_empty': rng.random() < 0.2})
+        if len(cases[-1]['revocations']) >= 2 and random.Random(f'C12-stale-{seed}-{j}').random() < 0.6:
+            cases[-1]['stale_offer'] = True       # the second login offers the FIRST credentials again (invalidated before the last re-authentication)
+            cases[-1].update(requests=30, gap=0.5, start_empty=False)      # the requesters go on through all revocations
     # (d) re-authentication of the whole operator: its token is revoked while watch streams are open and several patches are in flight
     for j in range(40 if tier == 'quick' else 1000):
         n_obj = rng.choice([1, 2, 4, 6])
@@ -318,10 +321,14 @@ def run_reauth(case: dict[str, Any]) -> dict[str, Any]:
     first401: dict[str, float] = {}
     consec: dict[Any, int] = {}
 
+    first_client: list[Any] = []
+
     def new_client() -> Any:
         c = kube.client(f"tok{current['n']}")
         c.token = c.name
         current['n'] += 1
+        if not first_client:
+            first_client.append(c)
         return c
 
     registry = kopf.OperatorRegistry()
@@ -332,6 +339,15 @@ def run_reauth(case: dict[str, Any]) -> dict[str, Any]:
         logins.append(rec)
         if case['login_delay']:
             await asyncio.sleep(case['login_delay'])
+        if case.get('stale_offer') and len(logins) == 2 and first_client:
+            # a login handler that offers credentials again which were invalidated BEFORE the last successful re-authentication (a cached kubeconfig,
+            # a token file not yet rotated): they are refused -- invalidated credentials are not reused, however long ago they were invalidated
+            rec['t1'] = loop.time()
+            rec['token'] = first_client[0].token
+            rec['stale'] = True
+            cov['stale_offers'] = cov.get('stale_offers', 0) + 1
+            first_client[0].closed = False       # (with token credentials the connection would be built anew from them; here the session object IS the credential)
+            return credentials.AiohttpSession(server='http://fake', aiohttp_session=first_client[0])
         c = new_client()
         rec['t1'] = loop.time()
         rec['token'] = c.token
@@ -399,12 +415,15 @@ def run_reauth(case: dict[str, Any]) -> dict[str, Any]:
     cov['logins'] = len(logins)
     noticed = sorted(first401)
     bad = [r for r in results if r['outcome'] != 'ok']
+    stale = any(l.get('stale') for l in logins)
+    if stale:
+        bad = [r for r in bad if 'LoginError' not in str(r['outcome'])]      # a login that offers nothing usable may fail the waiting requests: the handler's fault
     if bad:
         b = bad[0]
         viol.append({'mech': 'request-lost-in-reauthentication' if noticed else 'request-failed', 'msg': f"request #{b['j']} of requester {b['w']} (started t={b['t0']}) ended with {b['outcome']!r}; "
                      f"tokens revoked and noticed: {noticed}; logins: {[(l['t0'], l['t1']) for l in logins]}", 'witness': {'failed': bad[:5], 'logins': logins}})
     expected_logins = len(noticed) + (1 if case['start_empty'] else 0)
-    if len(logins) != expected_logins and not bad:
+    if len(logins) != expected_logins and not bad and not stale:
         viol.append({'mech': 'reauthentication-count', 'msg': f"{len(logins)} login activities for {len(noticed)} revoked-and-noticed tokens (initially empty vault: {case['start_empty']}); exactly one each is expected",
                      'witness': {'logins': logins, 'first401': first401}})
     # a revoked token is never presented again once its first 401 has been answered and the replacement login has finished
